@@ -501,14 +501,21 @@ func (ch c19) runConn(c *core.Ctx, env *hs.Env, cfg c19cfg, ending string, rng *
 		b.C.WaitClosed()
 		c.Count("connections_served_during_terminate_hook", 1)
 	} else {
+		// in a third of the connections the Read that delivers the Terminate message reports the end of the
+		// stream with it (as io.Reader allows, and as crypto/tls does when the closure alert follows directly)
+		send := cl.C.Send
+		if ending != "eof" && rng.Intn(3) == 0 {
+			send = func(b []byte) { cl.C.SendCutEOF(b, nil) }
+			c.Count("terminate_delivered_together_with_end_of_stream", 1)
+		}
 		switch ending {
 		case "terminate":
-			cl.C.Send(pg.Terminate())
+			send(pg.Terminate())
 		case "terminate-pipelined":
-			cl.C.Send(append(pg.Query("ok"), pg.Terminate()...))
+			send(append(pg.Query("ok"), pg.Terminate()...))
 		case "terminate-while-skipping":
 			// a failed extended message leaves the session discarding until Sync; Terminate must still work
-			cl.C.Send(append(append(pg.Parse("", "fail", nil), pg.Bind("", "", nil, nil, nil)...), pg.Terminate()...))
+			send(append(append(pg.Parse("", "fail", nil), pg.Bind("", "", nil, nil, nil)...), pg.Terminate()...))
 		case "eof":
 			cl.C.CloseWrite()
 			c.Count("eof_endings", 1)
